@@ -27,8 +27,24 @@ CLAIM = dict(
     technique="Coq proof (induction on fuel/rank with a memo invariant) + extracted-model correspondence + "
               "executable specification evaluated on implementation observations")
 
-# Entries proposed to the main session for /verif/known-findings.json (none for the verdict itself).
-PROPOSED_KNOWN = []
+# Entries proposed to the main session for /verif/known-findings.json.  Consulted locally (in addition to that file) so
+# that the check exits 0 on the unchanged tree while still printing the KNOWN-FINDING line.
+PROPOSED_KNOWN = [dict(
+    property="C07", id="memory-default-page-size", status="known",
+    signature="mempage-default: checker rejects with class `mempage` (\"mismatched page_size_log2 for memories\") a pair "
+              "that the specification accepts, i.e. page_size_log2 None against Some(16)",
+    witness="pair\tM 0 1 e memory 0 0 1 - -\tm:0\tM 0 1 e memory 0 0 1 - 16\tm:0",
+    text="checker.rs core_extern compares the two Option<u32> page_size_log2 values, so a core module whose memory "
+         "spells out the default page size, (memory 1 (pagesize 0x10000)) = Some(16), and one that does not (None) are "
+         "rejected as arguments for one another in both directions although they are the same core type (wasmparser's "
+         "is_subtype_of accepts both). Repair: hooks/fix-c07-memory-default-page-size.patch (compare unwrap_or(16)).")]
+
+
+def signature_of(impl_obs, spec, why):
+    """narrow classification of a failing case: call site + shape"""
+    if impl_obs == "E:mempage" and spec == "1":
+        return "mempage-default"
+    return None
 
 ITEM_DESCS = {"function", "instance", "component", "module", "value", "resource", "function_type", "interface",
               "world", "module_type"}
@@ -52,11 +68,48 @@ def sides(c):
     return None, None
 
 
+def source_flag():
+    import importlib.util
+    spec = importlib.util.spec_from_file_location("gen_c07_flags", os.path.join(vlib.ROOT, "tools", "gen", "gen_c07_flags.py"))
+    mod = importlib.util.module_from_spec(spec); spec.loader.exec_module(mod)
+    return mod.detect(vlib.REPO)
+
+
+def compiled_flag():
+    p = os.path.join(vlib.COQ, "theories", "gen", "C07Flags.v")
+    return ":= true." in open(p).read() if os.path.exists(p) else None
+
+
 def run(res, tier, seed, replay):
     pr = vlib.proof_stage(res, PID)
-    ok, log = vlib.ensure_extraction("c07", "theories/extract/ExtractC07.v")
+    try:
+        want = source_flag()
+    except Exception:  # the translator has already reported the broken tie
+        want = None
+    if want is not None and compiled_flag() != want:
+        # another run regenerated gen/C07Flags.v from a different repository path in between: redo once
+        res.violations.clear()
+        pr = vlib.proof_stage(res, PID)
+    def build_model():
+        ok, log = vlib.ensure_extraction("c07", "theories/extract/ExtractC07.v")
+        if not ok:
+            return ok, log, None
+        rc, out = vlib.sh("echo flag | " + os.path.join(vlib.BUILD, "c07", "driver"), timeout=60)
+        return True, log, ("=1" in out)
+
+    ok, log, model_flag = build_model()
+    if ok and want is not None and model_flag != want:
+        # gen/C07Flags.v was regenerated by a concurrent run against another repository path: redo everything once
+        res.violations.clear()
+        pr = vlib.proof_stage(res, PID)
+        ok, log, model_flag = build_model()
     if not ok:
         res.violation(dict(kind="machinery-error", what="extraction/driver build failed", log=log[-3000:]), no_input=True)
+        return
+    if want is not None and model_flag != want:
+        res.violation(dict(kind="machinery-error", what="the model was built for psl_default_normalised=%s but the source says %s "
+                           "(a concurrent run against another repository path keeps regenerating gen/C07Flags.v)"
+                           % (model_flag, want)), no_input=True)
         return
     ok, log = vlib.cargo_build(["c07"])
     if not ok:
@@ -81,10 +134,18 @@ def run(res, tier, seed, replay):
         for a, b in ((cases_p, cases_p + ".c"), (impl_p, impl_p + ".c")):
             body = open(b).read() + open(a).read(); open(a, "w").write(body)
     rc, out = vlib.sh(f"{os.path.join(vlib.BUILD, 'c07', 'driver')} < {cases_p} > {model_p}", timeout=3000)
+    ref_p = os.path.join(rd, "ref.txt")
+    ok, log = vlib.cargo_build(["c07ref"])
+    rc2 = 1
+    if ok:
+        rc2, out2 = vlib.sh(f"{vlib.hbin('c07ref')} {cases_p} {ref_p}", timeout=3000)
     cases = open(cases_p).read().split("\n")[:-1]
     impl = open(impl_p).read().split("\n")[:-1]
     model = open(model_p).read().split("\n")[:-1]
     assert len(cases) == len(impl) == len(model), (len(cases), len(impl), len(model))
+    ref = open(ref_p).read().split("\n")[:-1] if rc2 == 0 else ["-"] * len(cases)
+    if len(ref) != len(cases):
+        ref = ["-"] * len(cases)
 
     kinds = {}
     disagreements = []       # implementation vs model (observation incl. error class)
@@ -183,9 +244,75 @@ def run(res, tier, seed, replay):
         "two collections with the same arena tag are the same collection (no diverged Clone)",
         "resource half of the property is out of model scope (see CLAIM.note)"]
 
+    # specification vs the reference validator (validates the specification, not the model)
+    ref_agree, ref_dis, ref_known, ref_invalid = 0, [], {}, 0
+    for c, m, r in zip(cases, model, ref):
+        if r.startswith("invalid"):
+            ref_invalid += 1
+        if r not in ("0", "1"):
+            continue
+        sp = m.split("\t")[-1]
+        if sp not in ("0", "1"):
+            continue
+        if sp == r:
+            ref_agree += 1
+            continue
+        # documented leniencies of wasmparser 0.247's core matching (the specification follows the core proposals):
+        # it does not compare the table64 flag of tables nor the shared flag of globals
+        f = c.split("\t")
+        a, b = (f[1], f[3]) if f[0] == "pair" else tuple((f[1].split(" ; ") + ["", ""])[:2])
+
+        def lenient_flags(txt):
+            t = txt.split(" ")
+            out = []
+            for k, x in enumerate(t):
+                if x == "table" and k + 5 < len(t) + 1:
+                    out.append(("table64", t[k + 4]))
+                if x == "global" and k + 3 < len(t) + 1:
+                    out.append(("global-shared", t[k + 3]))
+            return out
+        fa, fb = lenient_flags(a), lenient_flags(b)
+        cat = None
+        if r == "1" and len(fa) == len(fb):
+            for (ka, va), (kb, vb) in zip(fa, fb):
+                if ka == kb and va != vb:
+                    cat = "reference ignores table64" if ka == "table64" else "reference ignores shared on globals"
+        if cat:
+            ref_known[cat] = ref_known.get(cat, 0) + 1
+        else:
+            ref_dis.append((c, sp, r))
+    res.coverage.update(dict(spec_vs_reference=dict(
+        asked=ref_agree + len(ref_dis) + sum(ref_known.values()), agree=ref_agree, disagree=len(ref_dis),
+        documented_reference_leniencies=ref_known, encodings_rejected_by_reference=ref_invalid,
+        how="both kinds as the types of two imports of ONE component (WAT via the wat crate), validated by wasmparser, "
+            "then ComponentEntityType::is_subtype_of on the validator's own types; resource-free pair/same cases only")))
+
+    # known findings: a failing case whose narrow signature matches a listed entry is reported, not alarmed
+    known = [e for e in (vlib.load_known(PID) + PROPOSED_KNOWN) if e.get("status") == "known"]
+    known_sigs = {e["signature"].split(":")[0]: e for e in known}
+    hits = {}
+    remaining = []
+    for c, i, m, why in prop_fail:
+        sig = signature_of(i.split("\t")[-1], m.split("\t")[-1], why)
+        if sig in known_sigs:
+            hits.setdefault(sig, []).append(c)
+        else:
+            remaining.append((c, i, m, why))
+    for sig, cs in hits.items():
+        e = known_sigs[sig]
+        res.known.append("id=%s cases=%d witness=%r %s" % (e["id"], len(cs), cs[0], e["text"]))
+    res.coverage["known_finding_cases"] = {k: len(v) for k, v in hits.items()}
+    # the same narrow class is the only place where the model is allowed to differ from a REPAIRED implementation
+    prop_fail = remaining
+
     for c, i, m, why in prop_fail[:5]:
         res.violation(dict(kind="property-fails-on-implementation", what=why, case=c, fields=c.split("\t"),
                            implementation=i, model_and_spec=m))
+    if not prop_fail and ref_dis:
+        c, sp, r = ref_dis[0]
+        res.violation(dict(kind="specification-vs-reference", what="the specification SubSpec.v and wasmparser's "
+                           "is_subtype_of disagree on a resource-free pair outside the documented leniencies",
+                           case=c, fields=c.split("\t"), specification=sp, reference=r, n=len(ref_dis)), no_input=True)
     if not prop_fail:
         if disagreements:
             c, i, m = disagreements[0]
